@@ -282,7 +282,44 @@ def replayer(E, i):
     return rp
 
 
-def run_clause_b(ck, tier, seed):
+class _GenSide:
+    """adapter so that c01.Hasher / row_roots work on the generator module of a tree"""
+    def __init__(s, tree):
+        s.root = tree
+        ll, h = build.compile_ir('h_gen.cpp', tree=tree)
+        s.mod = build.load_module(ll)
+        ex, st = kit.new_exec(s.mod, unwind=3000)
+        interp._install_hashtable_stubs(ex)
+        vec = ex.new_region(st, 24, 'vec')
+        st = ex.call(st, '@mk_table_gen', [Ptr(vec, 0)])[0]
+        b, e_ = ex.load(st, Ptr(vec, 0), 8), ex.load(st, Ptr(vec, 8), 8)
+        s.rows = [{'i': i, 'ptr': Ptr(b.r, b.o + c02.MS * i)} for i in range((e_.o - b.o) // c02.MS)]
+        s._b = (ex, st, None)
+
+    def base(s):
+        return s._b
+
+
+def changed_generator_rows():
+    """-> (set of row indexes whose generator-handler IR closure differs from the pinned reference tree, bool: the state
+    constructor or the verifier's loader differ). Used by the quick tier to aim its sample at what changed."""
+    from checks import c01
+    cur, ref = _GenSide(build.REPO), _GenSide(build.REF)
+    hc, hr = c01.Hasher(cur), c01.Hasher(ref)
+    glob = hc.closure(['@gen_state'])[0] != hr.closure(['@gen_state'])[0] or build.gen_tv_load(build.REPO) != build.gen_tv_load(build.REF)
+    if len(cur.rows) != len(ref.rows):
+        return set(range(len(cur.rows))), True
+    rows = set()
+    for a, b in zip(cur.rows, ref.rows):
+        ra, rb = c01.row_roots(cur, a), c01.row_roots(ref, b)
+        ra = [r for r in ra if r != '@callm'] + ['@gen_callm']
+        rb = [r for r in rb if r != '@callm'] + ['@gen_callm']
+        if hc.closure(ra)[0] != hr.closure(rb)[0]:
+            rows.add(a['i'])
+    return rows, glob
+
+
+def run_clause_b(ck, tier, seed, changed_interp=()):
     """called from c01.run: Generator[row] obligations (quick: seeded sample of 64 rows; thorough: all rows)"""
     import random
     from checks import c01
@@ -301,10 +338,19 @@ def run_clause_b(ck, tier, seed):
     n = len(E.rows)
     rows = list(range(n))
     if tier != 'thorough':
-        rnd = random.Random(seed + 7)
-        rnd.shuffle(rows)
-        rows = sorted(rows[:64])
-        ck.notes.append('generator clause: quick tier decides a seeded sample of 64 of the %d rows (thorough: all)' % n)
+        try:
+            chg, glob = changed_generator_rows()
+        except (Abort, UnwindBound, KeyError) as x:
+            chg, glob = set(), True
+            ck.notes.append('generator clause: closure comparison with the reference tree failed (%s): all rows decided' % str(x)[:80])
+        if not glob:
+            rnd = random.Random(seed + 7)
+            rnd.shuffle(rows)
+            must = set(chg) | set(changed_interp)
+            rows = sorted(set(rows[:64]) | must)
+            ck.notes.append('generator clause: quick tier decides %d of the %d rows: a seeded sample of 64 plus the %d rows whose generator or interpreter handler IR differs from the pinned reference tree (thorough: all)' % (len(rows), n, len(must)))
+        else:
+            ck.notes.append('generator clause: GenerateRandomState or the verifier loader differ from the pinned reference tree: all %d rows decided' % n)
     chunks = [rows[k::16] for k in range(16) if rows[k::16]]
     for r in core.pmap(job_rows, [(c, tier, seed) for c in chunks]):
         if '__error__' in r:
